@@ -24,6 +24,33 @@ macro_rules! c04 {
     };
 }
 
+fn nan_only_case(m: u8, budget: usize, stages: usize, x0: f64, xend: f64) {
+    let mut sh = Sh::new(F_FINITE, x0, xend, budget);
+    sh.finite_rhs = false;
+    sh.nan_only = true; // NaN or |value| <= 1e6: nothing overflows, so a non-finite state can only come from an accepted NaN
+    sh.stages = stages;
+    let cfg = Cfg { first_step: Some((xend - x0).abs()), max_step: None, max_steps: 4, rtol: 1e-3, atol: 1e-6 };
+    let r = solve(m, &sh, &cfg);
+    judge_at_return(m, &sh, &cfg, &r);
+}
+
+macro_rules! c04n {
+    ($name:ident, $m:expr, $unw:expr, $budget:expr, $stages:expr, $x0:expr, $xend:expr) => {
+        #[kani::proof]
+        #[kani::unwind($unw)]
+        #[kani::stub(f64::powf, powf_model)]
+        #[kani::stub(f64::powi, powi_model)]
+        fn $name() {
+            nan_only_case($m, $budget, $stages, $x0, $xend);
+        }
+    };
+}
+// Success => no NaN state was handed out, when the right-hand side returns NaN or moderate values (first step lands on xend)
+c04n!(c04_success_nan_free_rk23, M_RK23, 5, 5, 3, 0.0, 1.0);
+c04n!(c04_success_nan_free_dopri5, M_DOPRI5, 5, 8, 6, 0.0, 1.0);
+c04n!(c04_success_nan_free_dop853, M_DOP853, 5, 17, 11, 0.0, 1.0);
+c04n!(c04_success_nan_free_dopri5_back, M_DOPRI5, 5, 8, 6, 1.0, 0.0);
+
 // a rejected first trial (including a NaN / inf error norm) is retried with a step <= 0.95 |h|
 c04!(c04_nan_reject_shrinks_rk23, M_RK23, F_REJECT_SHRINKS, 5, 5, 3, Some(0.5), 0.0, 1.0);
 c04!(c04_nan_reject_shrinks_dopri5, M_DOPRI5, F_REJECT_SHRINKS, 5, 8, 6, Some(0.5), 0.0, 1.0);
